@@ -39,6 +39,7 @@ def check(ctx):
   ctx.rule('C19.R3', 'every consumer callback call is individually wrapped in try/except Exception')
   ctx.rule('C19.R4', 'no loop over a live view of a dict/set attribute whose body mutates that attribute')
   ctx.rule('C19.R5', 'parent deletion resets the children baseline and queues the old baseline as leaves; data watch toggles the children watch')
+  ctx.rule('C19.R6', 'kazoo watch callbacks (functions handed to ChildrenWatch / DataWatch) never return False: a False result cancels the watch for good')
   ctx.decline('agreement with a znode tree over all histories is not decided')
   cls = prog.cls(Z, 'ServerSet')
   osc = prog.func(Z, 'ServerSet._on_set_changed')
@@ -48,6 +49,7 @@ def check(ctx):
   r3(ctx, cls)
   r4(ctx)
   r5(ctx, cls)
+  r6(ctx, cls)
 
 
 def r1(ctx, osc, wk):
@@ -318,3 +320,31 @@ def r5(ctx, cls):
   ctx.ob('C19.R5', sr, 'old children baseline queued as leaves through the worker', ok,
          'queued item is %s' % ([U(p.args[0]) for p in puts]),
          why + '; the leaves must be the listed-children baseline (members still being read are announced later and would never leave)')
+
+
+def r6(ctx, cls):
+  prog = ctx.prog
+  why = ("kazoo's ChildrenWatch/DataWatch stop watching when the callback returns False; every later membership change would go unreported")
+  n = 0
+  for f in cls.methods.values():
+    for c in walk_no_nested(f.node):
+      if not (isinstance(c, ast.Call) and isinstance(c.func, ast.Name) and c.func.id in ('ChildrenWatch', 'DataWatch')):
+        continue
+      cb = None
+      for k in c.keywords:
+        if k.arg == 'func':
+          cb = k.value
+      if cb is None and len(c.args) >= 3:
+        cb = c.args[2]
+      tgt = None
+      if isinstance(cb, ast.Attribute) and U(cb.value) == 'self':
+        tgt = prog.lookup_method(cls, cb.attr)
+      if tgt is None:
+        ctx.ob('C19.R6', f, '%s callback is a method of the server set' % c.func.id, False, 'callback %s cannot be resolved' % (U(cb) if cb is not None else None), why)
+        continue
+      n += 1
+      bad = [r for r in walk_no_nested(tgt.node) if isinstance(r, ast.Return) and r.value is not None
+             and not (isinstance(r.value, ast.Constant) and (r.value.value is None or r.value.value is True))]
+      ctx.ob('C19.R6', tgt, '%s callback never returns False' % c.func.id, not bad,
+             'callback may return %s' % [U(b.value) for b in bad], why)
+  ctx.floor('C19.R6', 'watch registrations', n, 2)
